@@ -800,7 +800,7 @@ def gen_iso_cases(rng, n_exact, n_tol, n_liso, big=False):
         pts = gen_points(rng, N, dim, rng.choice([6, 12, 40]), clusters=rng.random() < 0.25)
         T = [[l1(p, q) for q in pts] for p in pts]
         cases.append({"kind": "iso", "meth": "iso", "nm": rng.choice(["brute", "vptree", "covertree"]),
-                      "em": "dense", "k": rng.randint(3, min(6, N - 1)), "d": rng.randint(1, min(3, N - 2)),
+                      "em": "dense", "k": rng.randint(3, min(6, N - 1)), "d": rng.randint(1, min(3, dim, N - 2)),
                       "ratio": 1.0, "seed": rng.randrange(1 << 30), "N": N, "T": T, "exact": exact,
                       "threads": rng.choice(THREADS)})
     for i in range(n_liso):
@@ -1107,7 +1107,7 @@ def run(ctx):
         cases += gen_sp_cases(rng, 260, sizes, big=(48, 64))
         iso_cases = gen_iso_cases(rng, 24, 8, 16)
     else:
-        cases += gen_sp_cases(rng, 2500, sizes + [40, 48, 64], big=(64, 96, 128))
+        cases += gen_sp_cases(rng, 2000, sizes * 2 + [40, 48, 64], big=(64, 96, 128))
         cases += enum_small_cases()
         iso_cases = gen_iso_cases(rng, 200, 60, 120, big=True)
         for N in (200, 256, 400):
